@@ -1,4 +1,5 @@
 import G3D.Proofs.Typed
+import G3D.Proofs.ExactAll
 /-! # C04 (continued) — documented result types, for ALL operands of all 49 type pairs -/
 namespace G3D.Props.C04
 open G3D G3D.Dispatch G3D.Extracted
@@ -10,4 +11,13 @@ theorem result_type_documented (a b : Obj) (o : Option Obj) (h : inter a b = .ok
 
 theorem never_undocumented (a b : Obj) (l : List ResTy) (hl : docFor (tyOf a) (tyOf b) = some l)
     (o : Option Obj) (ho : resTyOf o ∉ l) : inter a b ≠ .ok o := inter_never_undocumented a b l hl o ho
+
+/-! ### no internal error for composite operands (kernels K0–K3, K6) -/
+/-- **never "Bug detected"**: for well-formed flats, Valid polygons and polyhedra meeting `ExactHyp` — every ordered type pair
+    except polyhedron × polyhedron — `intersection` returns (no exception of any kind), and what it returns is None, a
+    well-formed flat or a Valid polygon -/
+theorem never_raises_admissible (a b : Obj) (ha : OpOK a) (hb : OpOK b) (hnb : NotBothBodies a b) :
+    ∃ o, inter a b = .ok o ∧ ResOK o := by
+  obtain ⟨o, ho, hw, _⟩ := interRef_exactOK a b ha hb hnb
+  exact ⟨o, by rw [inter_eq_ref]; exact ho, hw⟩
 end G3D.Props.C04
